@@ -6,11 +6,17 @@ import (
 	"strings"
 
 	"github.com/tdewolff/canvas"
+	"verifharness/hc"
 )
 
-func init() { props["C07"] = c07 }
+func main() { hc.Main("C07", run) }
 
-func (c *Ctx) GenMatrix() canvas.Matrix {
+func run(c *hc.Ctx) {
+	c07(c)
+	c07laws(c)
+}
+
+func GenMatrix(c *hc.Ctx) canvas.Matrix {
 	m := canvas.Identity
 	n := 1 + c.Intn(4)
 	for i := 0; i < n; i++ {
@@ -34,19 +40,19 @@ func (c *Ctx) GenMatrix() canvas.Matrix {
 	return m
 }
 
-func c07(c *Ctx) {
+func c07(c *hc.Ctx) {
 	// 1. L1 correspondence: generated Point/Matrix/Rect/Bézier definitions vs the real functions
-	names := l1Names(func(file, recv, name string) bool {
+	names := hc.L1Names([]string{"Core", "Bezier"}, func(file, recv, name string) bool {
 		return recv == "Point" || recv == "Matrix" || recv == "Rect" || strings.Contains(name, "BezierPos")
 	})
-	c.l1Corr(names, c.N)
+	c.L1Corr(names, c.N)
 
 	// 2. Refinement of the property predicate on the real code: Transform maps every point.
 	np := c.N
 	for it := 0; it < np; it++ {
 		kinds := []string{"L", "LQC", "LQCA", "A", "LAZ"}[c.Intn(5)]
 		p := c.GenPath(kinds, 5, 2)
-		m := c.GenMatrix()
+		m := GenMatrix(c)
 		det := m.Det()
 		if math.Abs(det) < 1e-3 {
 			c.Count("skip-near-singular")
@@ -54,12 +60,12 @@ func c07(c *Ctx) {
 		}
 		c.Evals++
 		var q *canvas.Path
-		if msg := Try(func() { q = p.Copy().Transform(m) }); msg != "" {
+		if msg := hc.Try(func() { q = p.Copy().Transform(m) }); msg != "" {
 			c.Fail("panic", "Transform panicked: "+msg, map[string]any{"path": p.String(), "m": fmt.Sprint(m)})
 			continue
 		}
-		a, err1 := Decode(p.Data())
-		b, err2 := Decode(q.Data())
+		a, err1 := hc.Decode(p.Data())
+		b, err2 := hc.Decode(q.Data())
 		if err1 != nil || err2 != nil || len(a) != len(b) {
 			c.Fail("structure", "Transform changed the command structure", map[string]any{"path": p.String(), "m": fmt.Sprint(m), "out": q.String()})
 			continue
@@ -78,30 +84,30 @@ func c07(c *Ctx) {
 			}
 			c.Count("seg:" + string(a[i].Kind))
 			const n = 16
-			sa := SampleSeg(a[i], n)
+			sa := hc.SampleSeg(a[i], n)
 			if a[i].Kind != 'A' {
-				sb := SampleSeg(b[i], n)
+				sb := hc.SampleSeg(b[i], n)
 				for k := range sa {
 					mp := m.Dot(canvas.Point{X: sa[k].X, Y: sa[k].Y})
-					if d := (P2{mp.X, mp.Y}).Dist(sb[k]); d > tol {
+					if d := (hc.P2{mp.X, mp.Y}).Dist(sb[k]); d > tol {
 						bad = fmt.Sprintf("segment %d (%c) t=%d/%d: image %v vs transformed %v (d=%g)", i, a[i].Kind, k, n, mp, sb[k], d)
 						break
 					}
 				}
 			} else {
 				// arcs: parametrisation by angle is not affine invariant; compare as ordered point sets
-				fine := SampleSeg(b[i], 512)
+				fine := hc.SampleSeg(b[i], 512)
 				prev := -1
 				for k := range sa {
 					mp := m.Dot(canvas.Point{X: sa[k].X, Y: sa[k].Y})
 					best, bi := math.Inf(1), 0
 					for j := range fine {
-						if d := (P2{mp.X, mp.Y}).Dist(fine[j]); d < best {
+						if d := (hc.P2{mp.X, mp.Y}).Dist(fine[j]); d < best {
 							best, bi = d, j
 						}
 					}
 					ext := fine[0].Dist(fine[len(fine)/2]) + 1
-					if best > 1e-2*ext/4+tol && best > polylineLen(fine)/512*2 {
+					if best > 1e-2*ext/4+tol && best > hc.PolylineLen(fine)/512*2 {
 						bad = fmt.Sprintf("arc segment %d: image point %v is %g away from the transformed arc", i, mp, best)
 						break
 					}
@@ -129,7 +135,7 @@ func c07(c *Ctx) {
 
 	// 3. Decompose describes the same transformation
 	for it := 0; it < c.N; it++ {
-		m := c.GenMatrix()
+		m := GenMatrix(c)
 		c.Evals++
 		tx, ty, phi, sx, sy, theta := m.Decompose()
 		r := canvas.Identity.Translate(tx, ty).Rotate(phi).Scale(sx, sy).Rotate(theta)
@@ -150,10 +156,8 @@ func c07(c *Ctx) {
 
 // algebraic laws evaluated on the real code (tolerance-based); gives the concrete input when a
 // theorem about the translated definition no longer holds
-func init() {
-	prev := props["C07"]
-	props["C07"] = func(c *Ctx) {
-		prev(c)
+func c07laws(c *hc.Ctx) {
+	{
 		near := func(a, b canvas.Point, s float64) bool { return math.Hypot(a.X-b.X, a.Y-b.Y) <= 1e-9*(1+s) }
 		mag := func(m canvas.Matrix) float64 {
 			s := 0.0
@@ -164,9 +168,11 @@ func init() {
 			}
 			return s
 		}
-		arr := func(m canvas.Matrix) []float64 { return []float64{m[0][0], m[0][1], m[0][2], m[1][0], m[1][1], m[1][2]} }
+		arr := func(m canvas.Matrix) []float64 {
+			return []float64{m[0][0], m[0][1], m[0][2], m[1][0], m[1][1], m[1][2]}
+		}
 		for it := 0; it < c.N; it++ {
-			m, q := c.GenMatrix(), c.GenMatrix()
+			m, q := GenMatrix(c), GenMatrix(c)
 			p := canvas.Point{X: c.GenCoord(), Y: c.GenCoord()}
 			c.Evals++
 			c.Count("laws")
